@@ -297,12 +297,15 @@ class WARCRecorder(object):
         if self._params.max_size is not None \
            and os.path.getsize(self._warc_filename) > self._params.max_size:
             self._sequence_num += 1
-
-            if self._params.move_to is not None:
-                self._move_file_to_dest_dir(self._warc_filename)
+            full_filename = self._warc_filename
 
             _logger.debug('Starting new warc file due to max size.')
             self._start_new_warc_file()
+
+            # Only now: if the next file could not be started, recording
+            # goes on in the full one.
+            if self._params.move_to is not None:
+                self._move_file_to_dest_dir(full_filename)
 
     def _move_file_to_dest_dir(self, filename):
         '''Move the file to the ``move_to`` directory.'''
